@@ -174,8 +174,9 @@ var acceptC04 = append([]accept{
 	{"component.Negotiator$1", "_ = io.Writer.Write", "hash.Hash.Write never returns an error (documented)"},
 }, acceptNEG...)
 
-func c04Deadline(c *cx) {
-	id := "C04.4"
+func c04Deadline(c *cx) { c04DeadlineAs(c, "C04.4") }
+
+func c04DeadlineAs(c *cx, id string) {
 	f := c.fn(id, "", "negotiateSession")
 	if f != nil {
 		g := f.Graph()
